@@ -96,6 +96,11 @@ type Session struct {
 	delivery    module.Delivery
 	deliveryErr error
 
+	// LMTP only: recipients as the client has spelled them, by the normalized
+	// address passed to the delivery. go-smtp wants statuses under the former.
+	rawRcpts     map[string][]string
+	rawRcptsLock sync.Mutex
+
 	log log.Logger
 }
 
@@ -158,6 +163,9 @@ func (s *Session) cleanSession() {
 	s.msgMeta = nil
 	s.delivery = nil
 	s.deliveryErr = nil
+	s.rawRcptsLock.Lock()
+	s.rawRcpts = nil
+	s.rawRcptsLock.Unlock()
 	s.msgCtx = nil
 	s.msgTask.End()
 }
@@ -428,7 +436,18 @@ func (s *Session) rcpt(ctx context.Context, to string, opts *smtp.RcptOptions) e
 		}
 	}
 
-	return s.delivery.AddRcpt(ctx, cleanTo, *opts)
+	if err := s.delivery.AddRcpt(ctx, cleanTo, *opts); err != nil {
+		return err
+	}
+	if s.endp.serv.LMTP {
+		s.rawRcptsLock.Lock()
+		if s.rawRcpts == nil {
+			s.rawRcpts = make(map[string][]string)
+		}
+		s.rawRcpts[cleanTo] = append(s.rawRcpts[cleanTo], to)
+		s.rawRcptsLock.Unlock()
+	}
+	return nil
 }
 
 func (s *Session) Logout() error {
@@ -552,6 +571,13 @@ type statusWrapper struct {
 }
 
 func (sw statusWrapper) SetStatus(rcpt string, err error) {
+	sw.s.rawRcptsLock.Lock()
+	if raw := sw.s.rawRcpts[rcpt]; len(raw) != 0 {
+		sw.s.rawRcpts[rcpt] = raw[1:]
+		rcpt = raw[0]
+	}
+	sw.s.rawRcptsLock.Unlock()
+
 	sw.sc.SetStatus(rcpt, sw.s.endp.wrapErr(sw.s.msgMeta.ID, !sw.s.opts.UTF8, "DATA", err))
 }
 
